@@ -139,8 +139,20 @@ pub fn run(
                     intersection_vertex_id,
                     rev_tree,
                 )?;
-                let rev_route =
-                    bidirectional_ops::reorient_reverse_route(&fwd_route, &rev_route_backward, si)?;
+                let rev_route = match bidirectional_ops::reorient_reverse_route(
+                    &fwd_route,
+                    &rev_route_backward,
+                    si,
+                ) {
+                    Ok(rev_route) => rev_route,
+                    Err(e) => {
+                        // this alternative cannot be traversed forwards (for example a missing
+                        // turn entry at the junction): drop it, keep the routes found so far
+                        log::debug!("ksp:{} alternative dropped: {}", ksp_it, e);
+                        ksp_it += 1;
+                        continue;
+                    }
+                };
                 let this_route = fwd_route.into_iter().chain(rev_route).collect::<Vec<_>>();
 
                 // test loop
